@@ -60,4 +60,124 @@ theorem filter_defaults_from_source (size a b c : Nat) :
     Src.filterHeader size a b c none none none = Src.filterHeader size a b c (some U32MAX) (some 0) (some U64MAX) := by
   simp [Src.filterHeader, U32MAX, U64MAX]
 
+/-! ### the tag section (`tags.rs`) -/
+
+theorem strs_size_fold (tag : List Bytes) (a : Nat) :
+    tag.foldl (fun length s => ((length + 2) + s.length)) a = a + strsSize tag := by
+  induction tag generalizing a with
+  | nil => simp [strsSize]
+  | cons s ss ih => simp only [List.foldl_cons, ih, strsSize]; omega
+
+theorem tags_size_fold (ts : TagsRec) (a : Nat) :
+    ts.foldl (fun length tag => tag.foldl (fun length s => ((length + 2) + s.length)) (length + 2)) a = a + tagsBodySize ts := by
+  induction ts generalizing a with
+  | nil => simp [tagsBodySize]
+  | cons t ts ih => rw [List.foldl_cons, ih, strs_size_fold]; simp only [tagsBodySize, tagSize]; omega
+
+/-- `Tags::output_size_needed` as the source adds it up today (an initial length, `+= …` per tag and per string) is the model's
+`tagsSize` for every list of tags -/
+theorem tags_size_from_source (ts : TagsRec) : Src.tagsSize ts = tagsSize ts := by
+  unfold Src.tagsSize tagsSize
+  rw [tags_size_fold]
+
+/-- `Tags::from_parts` today: it refuses exactly when the model refuses (section longer than `u16::MAX`, buffer shorter than the
+section), and otherwise the buffer starts with the source's four header bytes, the offset table beginning at the source's initial `p`,
+the tags, and is untouched beyond the source's `length` -/
+theorem tags_from_parts_from_source (ts : TagsRec) (buf : Bytes) :
+    tagsFromParts ts buf =
+      if Src.tagsRejects (Src.tagsSize ts) buf.length then .err
+      else .ok (Src.tagsHeader (Src.tagsSize ts) ts.length ++ encOffsets (Src.tagsBodyStart ts.length) ts ++ encTagsBody ts
+                ++ buf.drop (Src.tagsSize ts)) := by
+  rw [tags_size_from_source]
+  unfold tagsFromParts Src.tagsRejects Src.tagsHeader Src.tagsBodyStart encodeTags
+  by_cases h1 : tagsSize ts > 65535 <;> by_cases h2 : buf.length < tagsSize ts <;> simp [h1, h2]
+
+/-- the readers of a tag section with the offsets they use as parameters -/
+def readStrsAt (a b c : Nat) (bs : Bytes) : Nat → Nat → Outcome (List Bytes)
+  | 0, _ => .ok []
+  | n + 1, off =>
+    match rd16 bs off with
+    | .ok len =>
+      match slice bs (off + a) (off + b + len - (off + a)) with
+      | .ok s =>
+        match readStrsAt a b c bs n (off + c + len) with
+        | .ok ss => .ok (s :: ss)
+        | .err => .err
+        | .panic => .panic
+      | .err => .err
+      | .panic => .panic
+    | .err => .err
+    | .panic => .panic
+
+def readTagsFromAt (slot0 w first a b c : Nat) (bs : Bytes) (count : Nat) : Nat → Nat → Outcome TagsRec
+  | 0, _ => .ok []
+  | n + 1, i =>
+    if i ≥ count then .ok []
+    else match rd16 bs (slot0 + i * w) with
+      | .ok off =>
+        match rd16 bs off with
+        | .ok cnt =>
+          match readStrsAt a b c bs cnt (off + first) with
+          | .ok t =>
+            match readTagsFromAt slot0 w first a b c bs count n (i + 1) with
+            | .ok ts => .ok (t :: ts)
+            | .err => .err
+            | .panic => .panic
+          | .err => .err
+          | .panic => .panic
+        | .err => .err
+        | .panic => .panic
+      | .err => .err
+      | .panic => .panic
+
+/-- `Tags::delineate` and `tags.iter()` collected, reading where the list says -/
+def tagsReadAt (rs : List Nat) (inp : Bytes) : Outcome (Bytes × Outcome TagsRec) :=
+  match rs with
+  | [least, lenAt, countAt, slot0, w, first, a, b, c] =>
+    if inp.length < least then .err
+    else match rd16 inp lenAt with
+      | .ok len =>
+        if inp.length < len then .err
+        else
+          let sec := inp.take len
+          .ok (sec, match rd16 sec countAt with
+            | .ok cnt => readTagsFromAt slot0 w first a b c sec cnt cnt 0
+            | .err => .err
+            | .panic => .panic)
+      | .err => .err
+      | .panic => .panic
+  | _ => .panic
+
+theorem readStrsAt_model (bs : Bytes) (n off : Nat) : readStrsAt 2 2 2 bs n off = readStrs bs n off := by
+  induction n generalizing off with
+  | zero => simp [readStrsAt, readStrs]
+  | succ n ih =>
+    have h (len : Nat) : off + 2 + len - (off + 2) = len := by omega
+    simp only [readStrsAt, readStrs, ih, h]
+    rfl
+
+theorem readTagsFromAt_model (bs : Bytes) (count n i : Nat) :
+    readTagsFromAt 4 2 2 2 2 2 bs count n i = readTagsFrom bs count n i := by
+  induction n generalizing i with
+  | zero => simp [readTagsFromAt, readTagsFrom]
+  | succ n ih => simp only [readTagsFromAt, readTagsFrom, ih, readStrsAt_model]; rfl
+
+/-- `Tags::delineate`, `Tags::count`, `TagsIter::next` and `TagsStringIter::next` read today where the model's `tagsDelineate` and
+`tagsDecode` read: on every input, the same section and the same tags (or the same refusal / panic) -/
+theorem tag_readers_from_source (inp : Bytes) :
+    tagsReadAt Src.tagReads inp =
+      (match tagsDelineate inp with
+       | .ok sec => .ok (sec, tagsDecode sec)
+       | .err => .err
+       | .panic => .panic) := by
+  unfold Src.tagReads tagsReadAt tagsDelineate tagsDecode tagsCount
+  simp only [readTagsFromAt_model]
+  by_cases h : inp.length < 2
+  · simp [h]
+  · simp only [h, if_false]
+    cases rd16 inp 0 with
+    | ok len => by_cases h2 : inp.length < len <;> simp [h2] <;> rfl
+    | err => rfl
+    | panic => rfl
+
 end Pocket
